@@ -13,7 +13,7 @@ from .. import attach, cv, gen, lib, ref
 from ..lib import call
 
 PROP = "C15"
-PLAN = {"quick": (1024 + 400, 500), "thorough": (16384 + 6000, 4500)}
+PLAN = {"quick": (1024 + 400, 500), "thorough": (16384 + 2000, 5400)}
 STEP_BUDGET = 60_000_000  # Intersection of two multi-span cubics legitimately needs ~1e7 loop line events
 WITH_REPO_TESTS = True  # thorough tier also runs the repository's own suite under M1 / M3 / M4
 RULE = ("case = 2-3 initial curves (two of them built from the same KnotVector object, one a copy) + a program of 5-25 "
